@@ -4,6 +4,7 @@ package ecmascript
 
 import (
 	"context"
+	"sync"
 
 	"github.com/Comcast/sheens/core"
 	"github.com/Comcast/sheens/match"
@@ -93,4 +94,41 @@ func VerifC10Isolation() {
 	}
 	verif.AssertNoWrites("interpreter-program-and-package-state-read-only", "interpreter", "program", "globals")
 	verif.Reach("end")
+}
+
+// VerifC10Concurrent: two executions of ONE compiled source on ONE interpreter at the same time, each with
+// its own bindings and props: no data race among the interpreter's own accesses (happens-before detector),
+// and each execution completes as it does alone.
+func VerifC10Concurrent() {
+	s := anyScript("s", 2, opsMutate, []int{retBindings, retObject, retNull})
+	interp := NewInterpreter()
+	ctx := context.Background()
+	compiled, cerr := interp.Compile(ctx, s.src)
+	verif.Assert("script-compiles", cerr == nil)
+	var errs [2]error
+	var wg sync.WaitGroup
+	wg.Add(2)
+	first := c10Bindings()
+	for i := 0; i < 2; i++ {
+		i := i
+		bs := first
+		if i == 1 {
+			// the second execution gets an equal but separate copy
+			x, err := core.Canonicalize(map[string]interface{}(first))
+			verif.Assert("bindings-copyable", err == nil)
+			bs = match.Bindings(x.(map[string]interface{}))
+		}
+		props := core.StepProps{"p": 1.0, "nested": map[string]interface{}{"q": 1.0}}
+		go func() {
+			defer wg.Done()
+			_, errs[i] = interp.Exec(ctx, bs, props, s.src, compiled)
+		}()
+	}
+	wg.Wait()
+	for _, r := range verif.RaceReports() {
+		verif.Note("race: " + r)
+		verif.Assert("no-data-race", false)
+	}
+	verif.Assert("concurrent-executions-agree", (errs[0] == nil) == (errs[1] == nil))
+	verif.Reach("concurrent-done")
 }
